@@ -262,6 +262,13 @@ def per_segment(c, L):
                   cv == CURVE_OF(wrapped))               # curvature of curves[i mod len]
 
 
+def every_segment(c, sq, k, elem):
+    # one pass per segment: as many as there are times, pass k for segment k
+    if elem.k != 'int':
+        return z3.BoolVal(False), z3.BoolVal(False)
+    return sq.extra['len'] == z3.Int('self.times.len'), elem.z == k
+
+
 def format_post(c):
     t = c.trace
     heads = [i for i, e in enumerate(t) if e[0] == 'loop-head']
@@ -302,7 +309,7 @@ for relk in ('none', 'int'):
                                            z3.Int('levels.len') == z3.Int('self.times.len') + 1,
                                            z3.Int('times.len') == z3.Int('self.times.len')),
                  ensures=[('level0,count,release,loop(-99-when-absent);then-per-segment-level,time,shape,curve', format_post)],
-                 loops={0: Loop(inv=per_segment)},
+                 loops={0: Loop(inv=per_segment, over=every_segment)},
                  fields={'Env': {'__envgen_format': 'none', 'levels': 'obj', 'times': times_kind, 'curves': 'obj',
                                  'release_node': relk, 'loop_node': loopk}},
                  hooks={'getattr': ef_getattr, 'listcomp': ef_listcomp},
